@@ -173,7 +173,7 @@ func genC08(t *rapid.T) c08Case {
 	c.Procs = rapid.SampledFrom([]int{2, 4, 16}).Draw(t, "procs")
 	c.Yield = rapid.SliceOfN(rapid.IntRange(0, 3), 8, 8).Draw(t, "yield")
 	c.Spin = rapid.SliceOfN(rapid.SampledFrom([]int{0, 0, 200, 1000, 5000, 20000, 60000, 200000, 600000}), 16, 16).Draw(t, "spin")
-	if rapid.IntRange(0, 11).Draw(t, "storm") == 0 {
+	if rapid.IntRange(0, 39).Draw(t, "storm") == 0 {
 		c.Storm = rapid.SampledFrom([]int{120, 250, 400}).Draw(t, "stormms")
 	}
 	return c
@@ -483,7 +483,7 @@ func c08Storm(procs, ms int) *Failure {
 		procs = 2
 	}
 	g := 4 * procs
-	const items = 24000
+	const items = 4000 // what matters is that goroutines spend most of their time inside the call, not the size
 	var mu sync.Mutex
 	var fail *Failure
 	var wg sync.WaitGroup
